@@ -449,6 +449,11 @@ class LiveMedia(MediaRequestBase):
             seg_num, mod_segment, origin_time = representation.calculate_segment_number_and_time(
                 seg_time, seg_num)
             logging.debug('segment=%d mod=%d origin=%d', seg_num, mod_segment, origin_time)
+            if seg_time is not None:
+                # the segment number derived from a $Time$ request counts from zero,
+                # not from start_number
+                first -= representation.start_number
+                last -= representation.start_number
         except ValueError as err:
             logging.warning('ValueError: %s', err)
             logging.info(
